@@ -98,6 +98,8 @@ pub struct Pool3 {
     pub blocks: u64,
     pub model: Model,
     pub perm_next: std::cell::Cell<u8>,
+    /// scripted steps to emit before anything else
+    pub queue: Vec<Step>,
 }
 
 #[derive(Clone, Debug)]
@@ -454,6 +456,7 @@ impl Scenario for Pool3 {
             fee18: [dec_atomics(&cfg.fees[0]), dec_atomics(&cfg.fees[1]), dec_atomics(&cfg.fees[2])],
             blocks: 0,
             perm_next: std::cell::Cell::new(0),
+            queue: vec![],
             model: Model { amp0: cfg.amp, amp1: cfg.amp, h0: h, h1: h, ..Default::default() },
         }
     }
@@ -478,6 +481,26 @@ impl Scenario for Pool3 {
             let sk = |rng: &mut Rng| *rng.pick(&[1u128, 1, 1, 2, 3, 10]);
             let amounts = [(base / sk(rng)).max(10_000), (base / sk(rng)).max(10_000), (base / sk(rng)).max(10_000)];
             return Some(Step { actor, op: Op::Provide { amounts, slippage: None, perm: 0 }, adv: 0, fault: Fault::None });
+        }
+        if !self.queue.is_empty() {
+            return Some(self.queue.remove(0));
+        }
+        // everybody leaves (only the locked minimum liquidity stays), then somebody deposits again
+        if rng.chance(1, 40) {
+            let mut q = vec![];
+            for (u, l) in o.users_lp.iter().enumerate() {
+                if *l > 0 {
+                    q.push(Step { actor: u, op: Op::Withdraw { lp: *l }, adv: 0, fault: Fault::None });
+                }
+            }
+            if !q.is_empty() {
+                _ctx.probe("exit_all_then_deposit_scripted");
+                let d = |rng: &mut Rng, b: u128| match rng.below(4) { 0 => 1, 1 => 10_000, _ => rng.edge_amount(b / 2).max(1) };
+                let amounts = [d(rng, bal[0]), d(rng, bal[1]), d(rng, bal[2])];
+                q.push(Step { actor, op: Op::Provide { amounts, slippage: None, perm: 0 }, adv: 0, fault: Fault::None });
+                self.queue = q;
+                return Some(self.queue.remove(0));
+            }
         }
         let mut fault = Fault::None;
         if self.cfg.faults && rng.chance(1, 10) {
